@@ -40,6 +40,9 @@ func init() {
 type Op struct {
 	K      string `json:"k"`                // begin set del get getr keys commit rollback gc reopen otherdb burst delburst txburst files
 	H      int    `json:"h,omitempty"`      // actor selector: 0 = autocommit, else the (H-1 mod n)-th open transaction
+	// CancelClose (Via "create", inline binding): the context given to Create is cancelled after the last Write,
+	// before Close - a handle that outlives the request it was created in. The inline binding ignores contexts.
+	CancelClose bool `json:"cancel_close,omitempty"`
 	Last   bool   `json:"last,omitempty"`   // address the most recently begun transaction that is still open
 	Late   bool   `json:"late,omitempty"`   // C13: address an ended transaction instead of an open one
 	Recent bool   `json:"recent,omitempty"` // with Late: the transaction that ended most recently
@@ -493,7 +496,12 @@ func (w *World) doWrite(s fs_db.Store, key string, b []byte, op Op) error {
 	case "reader":
 		return s.SetReader(w.ctx, key, &chunkReader{b: append([]byte(nil), b...), split: op.Split, eofWithData: len(b)%2 == 1})
 	case "create":
-		f, err := s.Create(w.ctx, key)
+		cctx, cancelCreate := w.ctx, func() {}
+		if op.CancelClose && !w.Case.External {
+			cctx, cancelCreate = context.WithCancel(w.ctx)
+		}
+		defer cancelCreate()
+		f, err := s.Create(cctx, key)
 		if err != nil {
 			return err
 		}
@@ -555,6 +563,7 @@ func (w *World) doWrite(s fs_db.Store, key string, b []byte, op Op) error {
 				}
 			}
 		}
+		cancelCreate()
 		cerr := f.Close()
 		if werr != nil {
 			return werr
